@@ -190,6 +190,99 @@ func wonly(w any) bool { return true }
 //@     decreases len(s) - i
 
 // ---------------------------------------------------------------------------
+// env.go, errors.go, vm.go (C12): Stop, Fatal and unrecovered panics.
+// ---------------------------------------------------------------------------
+
+func specIsStop(e any) bool           { _, ok := e.(stopError); return ok }
+func specStopErr(e any) error         { return e.(stopError).err }
+func specIsFatal(e any) bool          { _, ok := e.(*fatalError); return ok }
+func specFatalMsg(e any) any          { return e.(*fatalError).msg }
+func specIsOut(e any) bool            { _, ok := e.(outError); return ok }
+func specOutErr(e any) error          { return e.(outError).err }
+func specIsPanicErr(e any) bool       { _, ok := e.(*PanicError); return ok }
+func specPanicMsg(e any) any          { return e.(*PanicError).message }
+func specPanicNext(e any) *PanicError { return e.(*PanicError).next }
+
+// lastErr("f") is the error returned by the latest call to f (ghost state of the verifier).
+func lastErr(f string) error { return nil }
+
+// "Stop stops the execution with the given error": it panics with stopError{err}.
+//@ func (*env).Stop
+//@   props C12
+//@   panicpost specIsStop(panicval) && specStopErr(panicval) == err
+
+// "Fatal exits the execution and then panics with value v": *fatalError carrying v.
+//@ func (*env).Fatal
+//@   props C12
+//@   panicpost specIsFatal(panicval) && specFatalMsg(panicval) == v
+
+// convertPanic: a stopError is returned as it is, before any opcode-specific
+// treatment; a failed output write (outError) becomes a PanicError carrying it;
+// the result is never nil.
+// (The panic-freedom of convertPanic itself needs the VM register invariants
+// and is not claimed yet: its safety obligations go to the unclaimed bucket X00.)
+//@ func (*VM).convertPanic
+//@   props X00 C12 C13
+//@   opt puremethods Error
+//@   opt stable VM Function
+//@   requires vm.fn != nil && 1 <= vm.pc && int(vm.pc) <= len(vm.fn.Body)
+//@   ensures[C12] specIsStop(msg) ==> result == msg
+//@   ensures[C13] specIsOut(msg) ==> specIsPanicErr(result) && specPanicMsg(result) == msg && specPanicNext(result) == nil
+//@   ensures[C12] result != nil
+
+//@ func (*VM).errIndexOutOfRange
+//@   props X00
+//@   trusted
+//@   ensures true
+
+//@ func (*VM).newPanic
+//@   props C12
+//@   requires vm.fn != nil
+//@   ensures result != nil && result.message == msg && result.next == nil && !result.recovered
+
+// runFunc (goroutine, atomics, recover: outside the verifier's subset) is
+// trusted for one fact: pointers it returns inside the error are not nil.
+func specAsPanic(e any) *PanicError { p, _ := e.(*PanicError); return p }
+func specAsFatal(e any) *fatalError { p, _ := e.(*fatalError); return p }
+
+//@ func (*VM).runFunc
+//@   props X00
+//@   trusted
+//@   ensures specIsPanicErr(result) ==> specAsPanic(result) != nil
+//@   ensures specIsFatal(result) ==> specAsFatal(result) != nil
+
+// VM.Run: the error given to Stop is returned itself; Fatal(v) makes Run panic
+// with v; a failed write is returned as the writer's error; everything else
+// (nil or the *PanicError) is returned unchanged.
+//@ func (*VM).Run
+//@   props C12 C13
+//@   opt track runFunc
+//@   requires vm.env != nil
+//@   panicpost specIsFatal(lastErr("runFunc")) && panicval == specFatalMsg(lastErr("runFunc"))
+//@   ensures specIsStop(lastErr("runFunc")) ==> result == specStopErr(lastErr("runFunc"))
+//@   ensures[C13] specIsPanicErr(lastErr("runFunc")) && specIsOut(specPanicMsg(lastErr("runFunc"))) ==> result == specOutErr(specPanicMsg(lastErr("runFunc")))
+//@   ensures specIsPanicErr(lastErr("runFunc")) && !specIsOut(specPanicMsg(lastErr("runFunc"))) ==> result == lastErr("runFunc")
+//@   ensures lastErr("runFunc") == nil ==> result == nil
+//@   ensures !specIsFatal(lastErr("runFunc"))
+
+// PanicError accessors.
+//@ func (*PanicError).Next
+//@   props C12
+//@   ensures result == p.next
+
+//@ func (*PanicError).Message
+//@   props C12
+//@   ensures result == p.message
+
+//@ func (*PanicError).Recovered
+//@   props C12
+//@   ensures result == p.recovered
+
+//@ func (*PanicError).Path
+//@   props C12
+//@   ensures result == p.path
+
+// ---------------------------------------------------------------------------
 // renderer.go (C05: no panic; C13: writer discipline)
 // ---------------------------------------------------------------------------
 
